@@ -102,6 +102,18 @@ def helper_entry_state(eng, fb, f):
     return eng._summ[key]
 
 
+def locks_assuming(eng, fb, f, assume):
+    """lock analysis of f restricted to the paths on which the immutable members in `assume` have the given
+    values (lambdas inherit as in locks_of)"""
+    key = ("assume", f.unit.name, f.id, tuple(sorted(assume.items())))
+    if key in eng._la:
+        return eng._la[key]
+    base = locks_of(eng, fb, f)
+    la = LockAnalysis(eng, f, inherited=base.inherited, entry_state=base.entry_state, assume=assume)
+    eng._la[key] = la
+    return la
+
+
 def locks_of(ctx_or_eng, fb, f):
     """lock analysis of f; for a lambda that is passed directly to a call, the
     locks held by the enclosing function at that call are inherited"""
@@ -171,7 +183,8 @@ def effective_access(eng, f, st):
     return kind, user
 
 
-def check_guarded_fields(ctx, rid, cls, only_fields=None, doc=None, only_functions=None, skip_atomic=False):
+def check_guarded_fields(ctx, rid, cls, only_fields=None, doc=None, only_functions=None, skip_atomic=False,
+                         assume_enabled=True):
     """A3 over every method of class template `cls`.  Emits one obligation per
     field reference.  Returns number of obligations."""
     fb, eng = ctx.fb, ctx.eng
@@ -196,6 +209,10 @@ def check_guarded_fields(ctx, rid, cls, only_fields=None, doc=None, only_functio
         if only_functions is not None and top.name not in only_functions and top.kind != "conv":
             continue
         la = locks_of(eng, fb, f)
+        opts = {"this." + e["opt"]: True for e in tab.values() if e.get("opt")}
+        if opts and assume_enabled:
+            # classes with optional locking promise exclusion only when it is enabled: judge the paths on which it is
+            la = locks_assuming(eng, fb, f, opts)
         for st in field_refs(f, cls):
             name = st["m"]["name"]
             ent = tab.get(name)
